@@ -409,6 +409,16 @@ func genText(rt *rapid.T, label string) string {
 			}
 		}
 	}
+	// a sixth of the non-empty strings begin or end with a character that text-cleaning code likes to drop: a byte
+	// order mark / zero-width no-break space, other zero-width and direction marks, spaces, a noncharacter
+	if len(r) > 0 && kind != 0 && rapid.IntRange(0, 5).Draw(rt, label+"edgechar") == 0 {
+		e := rune(rapid.SampledFrom([]int{0xFEFF, 0xFEFF, 0x200B, 0x200E, 0x00A0, 0x3000, 0xFFFD, 0xFFFF, 0x2028}).Draw(rt, label+"edge"))
+		if rapid.Bool().Draw(rt, label+"edgeatend") {
+			r[len(r)-1] = e
+		} else {
+			r[0] = e
+		}
+	}
 	return string(r)
 }
 
